@@ -121,9 +121,7 @@ func (s *JavaIdentifierListener) EnterMethodDeclaration(ctx *parser.MethodDeclar
 
 	typeType := ctx.TypeTypeOrVoid().GetText()
 
-	if reflect.TypeOf(ctx.GetParent().GetParent().GetChild(0)).String() == "*parser.ModifierContext" {
-		common_listener.BuildAnnotationForMethod(ctx.GetParent().GetParent().GetChild(0).(*parser.ModifierContext), &currentMethod)
-	}
+	common_listener.BuildAnnotationsForMember(ctx.GetParent().GetParent(), &currentMethod)
 
 	position := core_domain.CodePosition{
 		StartLine:         startLine,
@@ -196,9 +194,7 @@ func (s *JavaIdentifierListener) EnterInterfaceMethodDeclaration(ctx *parser.Int
 	//XXX: find the start position of {, not public
 	typeType := ctx.InterfaceCommonBodyDeclaration().(*parser.InterfaceCommonBodyDeclarationContext).TypeTypeOrVoid().GetText()
 
-	if reflect.TypeOf(ctx.GetParent().GetParent().GetChild(0)).String() == "*parser.ModifierContext" {
-		common_listener.BuildAnnotationForMethod(ctx.GetParent().GetParent().GetChild(0).(*parser.ModifierContext), &currentMethod)
-	}
+	common_listener.BuildAnnotationsForMember(ctx.GetParent().GetParent(), &currentMethod)
 
 	position := core_domain.CodePosition{
 		StartLine:         startLine,
